@@ -53,5 +53,36 @@ class _Presented:
         return cp.memento(7, k)
 
 
-FUNCS = {"cv": cv, "cv2": cv2, "cc": cc, "ck": ck, "ck2": ck2, "cp": _Presented("plain"), "cp.partial": _Presented("partial"),
+@m.memento_function(cluster="c", version="1")
+def cpa(k):
+    from twosigma.memento.partition import InMemoryPartition
+    return InMemoryPartition({"a": rt.produce("cpa", k), "b": k})
+
+
+@m.memento_function(cluster="c", version="1")
+def cpb(k):
+    # another function returning a partition with other keys
+    from twosigma.memento.partition import InMemoryPartition
+    return InMemoryPartition({"x": rt.produce("cpb", k), "y": [k, k]})
+
+
+class _Batch:
+    """cv over [k, k + 1] through the batch entry point"""
+
+    def __call__(self, k):
+        return cv.call_batch([{"k": k}, {"k": k + 1}])
+
+    def memento(self, k):
+        return cv.memento(k + 1)
+
+
+class _Forget:
+    def __call__(self, k):
+        return cv.forget(k)
+
+    def memento(self, k):
+        return None
+
+
+FUNCS = {"cpa": cpa, "cpb": cpb, "cv.batch": _Batch(), "cv.forget": _Forget(), "cv": cv, "cv2": cv2, "cc": cc, "ck": ck, "ck2": ck2, "cp": _Presented("plain"), "cp.partial": _Presented("partial"),
          "cp.kw": _Presented("kw")}
